@@ -24,10 +24,16 @@ func scalarType(e pgen.Elem) descriptorpb.FieldDescriptorProto_Type {
 		if e.Enc == "zigzag32" {
 			return descriptorpb.FieldDescriptorProto_TYPE_SINT32
 		}
+		if e.Enc == "fixed32" {
+			return descriptorpb.FieldDescriptorProto_TYPE_SFIXED32
+		}
 		return descriptorpb.FieldDescriptorProto_TYPE_INT32
 	case pgen.Int64, pgen.Int:
 		if e.Enc == "zigzag64" {
 			return descriptorpb.FieldDescriptorProto_TYPE_SINT64
+		}
+		if e.Enc == "fixed64" && e.Kind == pgen.Int64 {
+			return descriptorpb.FieldDescriptorProto_TYPE_SFIXED64
 		}
 		return descriptorpb.FieldDescriptorProto_TYPE_INT64
 	case pgen.Uint32:
@@ -71,9 +77,6 @@ func Supported(m *pgen.Msg) bool {
 		}
 		if (f.Wrap == pgen.MapVal || f.Wrap == pgen.MapValPtr) && f.Elem.Enc != "" {
 			return false
-		}
-		if (f.Wrap == pgen.Slice) && (f.Elem.Enc == "fixed32" || f.Elem.Enc == "fixed64") {
-			return false // the struct tag does not reach the element codec of repeated fields
 		}
 	}
 	return true
